@@ -2933,6 +2933,11 @@ class Interp:
                 return ("lookup", tuple((k, self.getattr(v, attr, st, ctx, node)) for k, v in base[1]), base[2])
             except AnalysisError:
                 pass
+        if t == "app" and base[1] in ("type", "builtins.type") and attr in ("__name__", "__qualname__") and len(base) == 3:
+            x_ = base[2]
+            if isinstance(x_, tuple) and x_[:1] == ("exc",):
+                return c(str(x_[1]).split(".")[-1])
+            return ("seq", "s", (("txt", ("app", "typename", x_)),))        # the name of a class: some text, nothing the rules depend on
         if t == "ite":
             d = decided_by(st.pc, base[1])
             if d is True:
